@@ -211,6 +211,12 @@ def lexer_specs(seed=0):
     S.append(LexSpec("skip_first", [[R(r"[ \t]+", "skip"), R(r"#[^\n]*", "skip")], [L("\n", ID("NL")), ("_",)]],
                      [ID("NL"), ("lit", "a"), ("re", "[a-z][a-z]+")],
                      "newline is a token because the only skips are explicit; no implicit whitespace skip"))
+    S.append(LexSpec("skip_low", [[L("\n", ID("NL")), R("[a-z]+", ID("W"))], [R(r"[ \t]+", "skip"), R(r"//[^\n]*", "skip"), ("_",)]],
+                     [ID("NL"), ID("W"), ("lit", ";")],
+                     "skip rules only in the LAST rung (lowest precedence); newline stays a token; no implicit whitespace skip"))
+    S.append(LexSpec("skip_mid", [[L("if", ID("IF"))], [R(r"[ ]+", "skip")], [R("[a-z]+", ID("W")), L("\t", ID("TAB")), ("_",)]],
+                     [ID("IF"), ID("W"), ID("TAB"), ("lit", "=")],
+                     "skip rule in a middle rung; tab is a token"))
     S.append(LexSpec("same_target", [[R("[0-9]+", ID("NUM")), R("0x[0-9a-f]+", ID("HEX"))], [R("[a-f]+", ID("NUM2")), ("_",)]],
                      [ID("NUM"), ID("HEX"), ID("NUM2"), ("lit", "x")], "0x1 : `0` then `x1`? longest match decides"))
     S.append(LexSpec("covered_overlap", [[L("ab")], [R("a[a-c]"), R("[a-c]b")]], [("lit", "ab"), ("re", "a[a-c]"), ("re", "[a-c]b")],
